@@ -1363,6 +1363,12 @@ func c18r12(c *Ctx) {
 			g := f.Graph()
 			c.VisitGraph(f)
 			ob := c.Ob(f, "context-bound-work-is-registered", call.Pos())
+			if f.Pkg.PkgPath == ir.PkgPath("threadgroup") {
+				// the thread group's own AddContext: how it registers is its internals (C18.R4); the call keeps this
+				// rule's anchor alive
+				ob.OK("inside the thread group")
+				continue
+			}
 			var ok []*cfgx.Edge
 			for _, ac := range f.CallsTo(false, add, addCtx) {
 				ok = append(ok, f.CheckOf(ac.Expr).Succ...)
